@@ -258,6 +258,16 @@ func runRobust(tier string, seed int64, phase string) {
 			}
 		}
 	}
+	// Language values at which narrowing conversions wrap around to a supported number
+	for i, l := range wrapIntegers() {
+		if tier == "quick" && i%3 != int(seed%3) {
+			continue
+		}
+		maybeCut()
+		recString(l, nil)
+		recCheck(valid12, l, Event{"cls": "wraplang"})
+		recByEntropy(r.bytes(16), l, Event{"fam": "wraplang"})
+	}
 	runWhitespaceMix(seed, map[string]int{"quick": 600, "thorough": 10000}[tier], langs)
 	// fuzzed bytes
 	nf := map[string]int{"quick": 300, "thorough": 5000}[tier]
